@@ -661,7 +661,7 @@ func main() {
 			if th {
 				return 12000
 			}
-			return 2500
+			return 1500
 		},
 		Fixed: [][]string{
 			{c, "add 0 30000000000 30000000000 1700000000 0 1000 1:10000000000 2:20000000000", "dump", "trigger 0 1700000250", "dump", "unlock 1 1700000500", "unlock 0 1700000500",
